@@ -1,13 +1,13 @@
 --------------------------- MODULE Trace_Complete ---------------------------
 (* impl -> spec for C18: one line = one real call of the completion engine:
-   {d, words, i, obs: [panicked, err, cands: [value, k, id, hidden]]}. *)
+   {d, words, i, reused (the Command had already parsed the preceding words), obs: [panicked, err, cands: [value, k, id, hidden]]}. *)
 EXTENDS Complete, Json, IOUtils
 Defs == ndJsonDeserialize(IOEnv.DEFS)
 Rec == ndJsonDeserialize(IOEnv.TRACE)
 VARIABLE l
 Ref(r) == PrefixLevel(Build(Defs[r.d].cmd, NoInherit), SubSeq(r.words, 1, r.i - 1), 1, 0, -1, 0)
 Via(r) == Ref(r).via
-Verdict(r) == IF P18(Defs[r.d].cmd, r.words, r.i, r.obs) THEN "ok"
+Verdict(r) == IF P18R(Defs[r.d].cmd, r.words, r.i, r.obs, r.reused) THEN "ok"
               ELSE IF r.obs.panicked THEN "C18-panic"
               ELSE IF "flagsub" \in Via(r) THEN "C18-candidates#KF-C18-1"
               ELSE IF "infer" \in Via(r) THEN "C18-candidates#KF-C18-2"
